@@ -358,9 +358,8 @@ def install_uf_kernels(m, ring):
         m.store(p, [tm.extract(v, 64 * i + 63, 64 * i) if isinstance(v, tm.T) else (v >> (64 * i)) & (W64 - 1) for i in range(4)])
 
     def mulM(a, b):
-        if a.id > b.id:
-            a, b = b, a
-        return tm.uf('mulM_' + tag, [a, b], 256)
+        from .models import comm_uf
+        return comm_uf('mulM_' + tag, a, b)
     C = m.contracts
     C[F + 'Mul'] = lambda m, a: st(a[0], mulM(ld(a[1]), ld(a[2])))
     C[F + 'Square'] = lambda m, a: st(a[0], mulM(ld(a[1]), ld(a[1])))
